@@ -187,7 +187,8 @@ def probe_cases(rng, cases, ires, limit):
     (norm vs tol * sqrt(size)) decides the exit."""
     out = []
     idx = [i for i, (c, r) in enumerate(zip(cases, ires))
-           if "error" not in r and c["kind"] == "nonlinear" and r["primary"]["iters"] >= 2 and not c["update"]]
+           if "error" not in r and c["kind"] == "nonlinear" and r["primary"]["iters"] >= 2 and not c["update"]
+           and math.isfinite(sum(abs(v) for s_ in r["traj"] for key_ in ("x", "fx", "dx") for v in s_[key_]))]
     rng.shuffle(idx)
     for i in idx:
         if len(out) >= limit:
@@ -296,8 +297,25 @@ def main():
         terms.append(term)
         tags.append((i, what, extra))
 
+    def all_finite(o):
+        if isinstance(o, dict):
+            return all(all_finite(v) for v in o.values())
+        if isinstance(o, (list, tuple)):
+            return all(all_finite(v) for v in o)
+        if isinstance(o, float):
+            return math.isfinite(o)
+        return True
+
+    nonfinite = set()
     for i, (c, r) in enumerate(zip(cases, ires)):
         if "error" in r:
+            continue
+        if not all_finite(r):
+            # inf/nan iterates on a well-posed problem (rational data, certified solvable steps): nothing to convert exactly
+            nonfinite.add(i)
+            ck.report(f"C19.{c['kind']}.non-finite-iterate",
+                      f"{c['kind']} constraint (D={c['D']}, K={c['K']}, maxiter={c['maxiter']}): the Gauss-Newton iteration produced non-finite "
+                      "states / statistics on a well-posed problem", {"case": jsonable(c), "impl": str(r)[:4000]})
             continue
         D, K = c["D"], c["K"]
         traj = r["traj"]
@@ -381,6 +399,9 @@ def main():
         if "error" in r:
             ck.count(key, nontrivial=False, kind=c["kind"])
             ck.report("C19.exception", f"implementation raised {r['error']}", replay)
+            continue
+        if i in nonfinite:
+            ck.count(key, nontrivial=False, kind=c["kind"])
             continue
         prim, traj = r["primary"], r["traj"]
         k = prim["iters"]
